@@ -435,3 +435,290 @@ Proof.
     + apply A2; lia.
 Qed.
 End Front2.
+
+(* ================================================================== *)
+(* hwloc_synthetic_process_indexes                                      *)
+(* ================================================================== *)
+(* like spec0, but the three arithmetic outcomes whose impossibility is not proved
+   (division by a zero width, assert(nbs), the never-ending "unsigned j < total" loop
+   for totals >= 2^32) are allowed *)
+Definition specA {A} (P : bool) (Q : A -> Prop) (r : out A) : Prop :=
+  match r with
+  | Ret a => Q a | Rej => True
+  | Fault f => (f = FLit /\ P = false) \/ f = FDiv \/ f = FAssert \/ f = FHang
+  end.
+Lemma specA_of {A} P (Q : A -> Prop) r : spec0 P Q r -> specA P Q r.
+Proof. destruct r; simpl; auto. Qed.
+Lemma specA_bind {A B} P (Q : A -> Prop) (R : B -> Prop) (r : out A) (k : A -> out B) :
+  specA P Q r -> (forall a, Q a -> specA P R (k a)) -> specA P R (obind r k).
+Proof. destruct r as [a| |f]; simpl; auto. Qed.
+Lemma specA_weaken {A} P (Q Q' : A -> Prop) r : specA P Q r -> (forall a, Q a -> Q' a) -> specA P Q' r.
+Proof. destruct r; simpl; auto. Qed.
+
+Section Indexes.
+Variables (v : variant) (s : list N) (n : N).
+Hypothesis Hs : cstring s n.
+Hypothesis Hfl : fix_loops v = true.
+Notation spec := (spec0 (tm_ok v s)).
+Notation specA' := (specA (tm_ok v s)).
+Notation iok := (istr_ok s n).
+
+Lemma explicit_spec total : forall fuel attr i acc, attr <= n -> (N.to_nat (n - attr) + 1 < fuel)%nat ->
+  spec (fun _ => True) (explicit_f fuel s attr i total acc).
+Proof.
+  induction fuel as [|f IH]; intros attr i acc Ha Hf; [lia|]. cbn [explicit_f].
+  destruct (i <? total); [|exact I].
+  eapply spec_bind; [apply (strtoul_spec v s n Hs attr 10 Ha)|]. intros r Hr. cbv beta in Hr. cbv zeta.
+  destruct (N.eqb_spec (snd r) attr) as [_|Hne]; [exact I|].
+  destruct (negb (i =? total - 1)).
+  - eapply spec_bind; [apply (rdo_spec v s n Hs); lia|]. intros c [Hc Zc].
+    destruct (N.eqb_spec c 44) as [->|_]; [|exact I].
+    assert (snd r <> n) by (intros E; apply Zc in E; discriminate). apply IH; lia.
+  - apply IH; lia.
+Qed.
+
+(* the number of ':' counted from tmp does not depend on the fuel or the accumulator *)
+Lemma count_colons_char lim : forall fuel tmp nr, tmp <= n -> (N.to_nat (n - tmp) < fuel)%nat ->
+  exists k, count_colons fuel s tmp lim nr = Ret (nr + k) /\
+            forall f' nr', (N.to_nat (n - tmp) < f')%nat -> count_colons f' s tmp lim nr' = Ret (nr' + k).
+Proof.
+  induction fuel as [|f IH]; intros tmp nr Ht Hf; [lia|]. cbn [count_colons].
+  destruct (strchr_ok s n tmp 58 Hs Ht) as [r [E H]]. rewrite E. cbn [lift obind].
+  destruct r as [j|].
+  - destruct H as [Hj [Hrd _]].
+    assert (j <> n). { intros ->. destruct Hs as [H0 _]. congruence. }
+    destruct (N.leb_spec lim j) as [Hl|Hl].
+    + exists 0. split; [f_equal; lia|]. intros [|f'] nr' Hf'; [lia|]. cbn [count_colons]. rewrite E. cbn [lift obind].
+      destruct (N.leb_spec lim j); [f_equal; lia|lia].
+    + destruct (IH (j + 1) (nr + 1)) as [k [Ek Hk]]; [lia|lia|]. exists (1 + k). split; [rewrite Ek; f_equal; lia|].
+      intros [|f'] nr' Hf'; [lia|]. cbn [count_colons]. rewrite E. cbn [lift obind].
+      destruct (N.leb_spec lim j); [lia|]. rewrite Hk by lia. f_equal. lia.
+  - exists 0. split; [f_equal; lia|]. intros [|f'] nr' Hf'; [lia|]. cbn [count_colons]. rewrite E. cbn [lift obind]. f_equal. lia.
+Qed.
+
+Section WithStop.
+Variable p : N.
+Hypothesis Hp : rd s p = Some 41.
+Hypothesis Hpn : p < n.
+
+Lemma strtol_stop_spec i b : i <= p -> spec (fun r => i <= snd r <= p) (lift (strtol s i b)).
+Proof.
+  intros Hi. destruct (strtol_ok s n i b Hs ltac:(lia)) as [x [e [E He]]]. rewrite E. unfold spec0. cbn [lift snd].
+  pose proof (strtol_le_stop s n i b p 41 x e Hs Hi Hp stopc_41 E). lia.
+Qed.
+
+Lemma xy_spec total nr_loops : forall fuel tmp cur minstep nbs acc, tmp <= p -> (N.to_nat (n - tmp) < fuel)%nat ->
+  spec (fun _ => True) (xy_f v fuel s total tmp nr_loops (nr_loops + 1) cur minstep nbs acc).
+Proof.
+  induction fuel as [|f IH]; intros tmp cur minstep nbs acc Ht Hf; [lia|]. cbn [xy_f].
+  eapply spec_bind; [apply strtol_stop_spec; exact Ht|]. intros r Hr. cbv beta in Hr. cbv zeta.
+  destruct (N.eqb_spec (snd r) tmp) as [_|Hne]; [exact I|].
+  eapply spec_bind; [apply (rdo_spec v s n Hs); lia|]. intros c2 [Hc2 _].
+  destruct (N.eqb_spec c2 42) as [->|_]; cbn [negb]; [|exact I].
+  destruct (_ =? 0); [exact I|].
+  assert (snd r <> p) by (intros E; rewrite E in Hc2; congruence).
+  eapply spec_bind; [apply strtol_stop_spec; lia|]. intros r3 Hr3. cbv beta in Hr3.
+  destruct (N.eqb_spec (snd r3) (snd r + 1)) as [_|Hne3]; [exact I|].
+  eapply spec_bind; [apply (rdo_spec v s n Hs); lia|]. intros c3 [Hc3 _].
+  destruct (_ && _ && _ && _); [exact I|].
+  destruct (_ =? 0); [exact I|].
+  rewrite Hfl. cbn [andb].
+  destruct (N.leb_spec nr_loops cur); [exact I|].
+  destruct (N.leb_spec (nr_loops + 1) cur); [lia|].
+  destruct (fix_width_overflow && _); [exact I|].
+  destruct (N.eqb_spec c3 41) as [->|H41]; cbn [orb]; [exact I|].
+  destruct (c3 =? 32); [exact I|].
+  assert (snd r3 <> p) by (intros E; rewrite E in Hc3; congruence).
+  apply IH; lia.
+Qed.
+End WithStop.
+
+(* the level array when the indexes are processed: arities assigned above the last
+   level, 0 at the last level *)
+Definition Inv3 (lv : list level) (count : N) : Prop :=
+  LvInv s n lv count /\ 1 <= count /\ count <= MAXD /\
+  exists l, nth_error lv (N.to_nat (count - 1)) = Some l /\ lv_arity l = Some 0.
+
+Lemma find_level_spec lv count ty d : Inv3 lv count -> forall fuel i, i + 1 <= count -> (N.to_nat (count - i) < fuel)%nat ->
+  spec (fun r => match r with Some k => k < MAXD | None => True end) (find_level fuel lv i ty d).
+Proof.
+  intros [[HL [HF HA]] [H1 [HM [lz [Hlz Az]]]]]. induction fuel as [|f IH]; intros i Hi Hf; [lia|]. cbn [find_level].
+  unfold lv_get. destruct (N.eq_dec i (count - 1)) as [->|Hne].
+  - rewrite Hlz. cbn [obind]. rewrite Az. cbn. exact I.
+  - destruct (HA i) as [l [Hl Al]]; [lia|]. rewrite Hl. cbn [obind].
+    unfold arity_set in Al. destruct (lv_arity l) as [a|]; [|congruence].
+    destruct (a =? 0); [exact I|].
+    destruct (negb (ty =? lv_type l)); [apply IH; lia|].
+    destruct (_ && _ && _); [apply IH; lia|]. unfold spec0. lia.
+Qed.
+
+Definition out_val (r : out N) : N := match r with Ret a => a | _ => 0 end.
+Lemma ty_spec lv count lim nr_loops : Inv3 lv count -> lim <= n -> (exists c, rd s lim = Some c /\ c <> 58) ->
+  forall fuel tmp cur acc k, tmp <= n -> (N.to_nat (n - tmp) < fuel)%nat ->
+  (forall f' nr', (N.to_nat (n - tmp) < f')%nat -> count_colons f' s tmp lim nr' = Ret (nr' + k)) ->
+  cur + 1 + k = nr_loops -> lenl acc = cur -> Forall (fun x => x < MAXD) acc ->
+  spec (fun ds => lenl ds = nr_loops /\ Forall (fun x => x < MAXD) ds)
+       (ty_f v fuel s lv tmp lim (nr_loops + 1) cur acc).
+Proof.
+  intros HI Hlim [cl [Hcl Ncl]]. induction fuel as [|f IH]; intros tmp cur acc k Ht Hf Hk Hcur Hlen Hacc; [lia|]. cbn [ty_f].
+  eapply spec_bind; [apply (type_sscanf_spec v s n Hs); exact Ht|]. intros [[[ty d] ct]|] _; [|exact I].
+  destruct (disallowed_io ty); [exact I|].
+  eapply spec_bind; [apply (find_level_spec lv count ty d HI); [destruct HI as [_ [? _]]; lia|unfold MAXnat; destruct HI as [_ [_ [? _]]]; lia]|].
+  intros fl Hfl'. destruct (N.leb_spec (nr_loops + 1) cur); [lia|].
+  destruct fl as [dep|]; [|exact I].
+  assert (Hacc' : Forall (fun x => x < MAXD) (acc ++ [dep])) by (apply Forall_app; split; [exact Hacc|repeat constructor; exact Hfl']).
+  assert (Hlen' : lenl (acc ++ [dep]) = cur + 1) by (unfold lenl in *; rewrite app_length; simpl; lia).
+  specialize (Hk (S f) 0 Hf). cbn [count_colons] in Hk.
+  destruct (strchr_ok s n tmp 58 Hs Ht) as [r [E Hr]]. rewrite E in *. cbn [lift obind] in *.
+  destruct r as [j|].
+  - destruct Hr as [Hj [Hrd _]].
+    assert (j <> n). { intros ->. destruct Hs as [H0 _]. congruence. }
+    assert (j <> lim). { intros ->. congruence. }
+    destruct (N.ltb_spec lim j) as [Hl|Hl].
+    + destruct (N.leb_spec lim j); [|lia]. apply (f_equal out_val) in Hk; cbn [out_val] in Hk. unfold spec0. split; [lia|exact Hacc'].
+    + destruct (N.leb_spec lim j); [lia|].
+      destruct (count_colons_char lim f (j + 1) (0 + 1)) as [k1 [Ek1 Hk1]]; [lia|lia|].
+      rewrite Ek1 in Hk. apply (f_equal out_val) in Hk; cbn [out_val] in Hk.
+      apply (IH (j + 1) (cur + 1) (acc ++ [dep]) k1); [lia|lia|exact Hk1|lia|exact Hlen'|exact Hacc'].
+  - apply (f_equal out_val) in Hk; cbn [out_val] in Hk. unfold spec0. split; [lia|exact Hacc'].
+Qed.
+
+Lemma nth_depth_spec ds i : (i < length ds)%nat -> Forall (fun x => x < MAXD) ds -> spec (fun d => d < MAXD) (nth_depth ds i).
+Proof.
+  intros Hi HF. unfold nth_depth. destruct (nth_error ds i) as [d|] eqn:E.
+  - unfold spec0. rewrite Forall_forall in HF. apply HF. eapply nth_error_In; eauto.
+  - apply nth_error_None in E. lia.
+Qed.
+Lemma prevdepth_spec ds cur my : Forall (fun x => x < MAXD) ds -> forall k i prev, (i + k = length ds)%nat -> prev < MAXD ->
+  spec (fun d => d < MAXD) (prevdepth_f ds k i cur my prev).
+Proof.
+  intros HF. induction k as [|k IH]; intros i prev Hik Hp; cbn [prevdepth_f]; [exact Hp|].
+  eapply spec_bind; [apply nth_depth_spec; [lia|exact HF]|]. intros di Hdi. cbv beta in Hdi.
+  destruct (_ && _); [exact I|]. apply IH; [lia|]. destruct (_ && _); assumption.
+Qed.
+Lemma ty_loops_spec lv ds total : lenl lv = MAXD -> Forall (fun x => x < MAXD) ds ->
+  forall k cur minstep nbs acc, (cur + k = length ds)%nat ->
+  specA' (fun _ => True) (ty_loops_f lv ds (length ds) k cur total minstep nbs acc).
+Proof.
+  intros HL HF. induction k as [|k IH]; intros cur minstep nbs acc Hck; cbn [ty_loops_f]; [exact I|].
+  eapply specA_bind; [apply specA_of, nth_depth_spec; [lia|exact HF]|]. intros my Hmy. cbv beta in Hmy.
+  eapply specA_bind; [apply specA_of, prevdepth_spec; [exact HF|reflexivity|pose proof MAXD_ge2; lia]|]. intros prev Hprev. cbv beta in Hprev.
+  eapply specA_bind; [apply specA_of, lv_get_spec; lia|]. intros lm _.
+  eapply specA_bind; [apply specA_of, lv_get_spec; lia|]. intros lp _.
+  destruct (lv_width lm =? 0); [simpl; auto|].
+  destruct (lv_width lp =? 0); [simpl; auto|].
+  destruct (_ || _); [destruct fix_intlv_deeper; simpl; auto|].
+  apply IH. lia.
+Qed.
+
+Lemma interleave_spec lv count attr length total : Inv3 lv count -> iok (Some (attr, length)) ->
+  specA' (fun _ => True) (interleave v s lv attr length total).
+Proof.
+  intros HI [Hal [Hc [q [Hq1 [Hq2 Hq3]]]]]. unfold interleave.
+  pose proof (len_ge s n Hs) as Hl. unfold len in Hl.
+  destruct (count_colons_char (attr + length) (S (List.length s)) attr 1) as [k [Ek Hk]]; [lia|lia|].
+  rewrite Ek. cbn [obind].
+  eapply specA_bind; [apply specA_of, (rdo_spec v s n Hs); lia|]. intros c _.
+  eapply specA_bind with (Q := fun _ => True).
+  { destruct (isdigit c).
+    - apply specA_of. apply (xy_spec q Hq3 Hq2); lia.
+    - eapply specA_bind; [apply specA_of, (ty_spec lv count (attr + length) (1 + k) HI Hal Hc _ attr 0 [] k); try lia; [exact Hk|reflexivity|constructor]|].
+      intros ds [Hds1 Hds2]. unfold lenl in Hds1.
+      replace (N.to_nat (1 + k)) with (List.length ds) by lia.
+      apply ty_loops_spec; [destruct HI as [[? _] _]; assumption|exact Hds2|lia]. }
+  intros [[loops minstep] nbs] _.
+  destruct (nbs =? 0); [simpl; auto|].
+  eapply specA_bind with (Q := fun _ => True).
+  { destruct (negb _); [destruct (_ =? _)|]; exact I. }
+  intros [loops' nr'] _.
+  destruct (U32 <=? total); [simpl; auto|].
+  destruct (check_array _ _ _); exact I.
+Qed.
+
+Lemma process_indexes_spec lv count istr total : Inv3 lv count -> iok istr ->
+  specA' (fun _ => True) (process_indexes v s lv istr total).
+Proof.
+  intros HI Hok. unfold process_indexes. destruct istr as [[attr length]|]; [|exact I].
+  destruct (T64 <=? total * 4); [exact I|].
+  pose proof (len_ge s n Hs) as Hl. unfold len in Hl.
+  assert (Ha : attr <= n) by (destruct Hok as [? _]; lia).
+  match goal with |- specA _ _ (match ?b with _ => _ end) => assert (HB : specA' (fun _ => True) b) end.
+  { eapply specA_bind; [apply specA_of, (strspn_spec v s n Hs); exact Ha|]. intros i _.
+    destruct (i =? length).
+    - apply specA_of, explicit_spec; lia.
+    - eapply interleave_spec; eauto. }
+  match goal with |- specA _ _ (match ?b with _ => _ end) => destruct b end; simpl in *; auto.
+Qed.
+
+(* ---------- the final loop and the end of the function ---------- *)
+Lemma inv3_upd lv c i f : Inv3 lv c -> i < MAXD ->
+  (forall x, iok (lv_istr x) -> iok (lv_istr (f x))) -> (forall x, lv_arity (f x) = lv_arity x) ->
+  spec (fun lv' => Inv3 lv' c) (lv_upd lv i f).
+Proof.
+  intros [L [H1 [HM [lz [Hlz Az]]]]] Hi Hf1 Hf2.
+  pose proof (lvinv_upd v s n lv c i f L Hi Hf1) as HU.
+  unfold lv_upd in *. destruct L as [HL [HF HA]].
+  destruct (upd_nth_some lv f (N.to_nat i)) as [l' [E Ln]]; [unfold lenl in HL; lia|]. rewrite E in *.
+  unfold spec0 in *. split; [apply HU; intros x Hx; unfold arity_set in *; now rewrite Hf2|].
+  split; [exact H1|]. split; [exact HM|].
+  rewrite (upd_nth_nth f lv _ l' E). destruct (Nat.eqb _ _); rewrite Hlz; simpl; eauto.
+  eexists. split; [reflexivity|]. now rewrite Hf2.
+Qed.
+
+Lemma final_loop_spec count : forall k i lv tcg, Inv3 lv count -> i + N.of_nat k = count ->
+  specA' (fun lv' => Inv3 lv' count) (final_loop v s k i lv tcg).
+Proof.
+  induction k as [|k IH]; intros i lv tcg HI Hik; cbn [final_loop]; [exact HI|].
+  assert (HM : i < MAXD) by (destruct HI as [_ [_ [? _]]]; lia).
+  eapply specA_bind; [apply specA_of, (lvinv_get v s n lv count i); [destruct HI; assumption|exact HM]|]. intros l [Hl _].
+  destruct (if _ && _ then _ else _) as [d tcg'].
+  eapply specA_bind; [apply specA_of, (inv3_upd lv count i); [exact HI|exact HM|intros; cbn; auto|intros; reflexivity]|].
+  intros lv1 H1. cbv beta in H1.
+  eapply specA_bind; [apply (process_indexes_spec lv1 count); [exact H1|exact Hl]|]. intros ia _.
+  eapply specA_bind; [apply specA_of, (inv3_upd lv1 count i); [exact H1|exact HM|intros x Hx; exact Hx|intros; reflexivity]|].
+  intros lv2 H2. cbv beta in H2. apply IH; [exact H2|lia].
+Qed.
+
+Lemma back_spec lv count tcg nnr nistr d0 : fix_arity v = true -> LvInv s n lv count -> 1 <= count -> count <= MAXD -> iok nistr ->
+  specA' (fun _ => True) (back v s lv count tcg nnr nistr d0).
+Proof.
+  intros Hfa L H1 HM Hni. unfold back. rewrite Hfa.
+  eapply specA_bind with (Q := fun lv' => Inv3 lv' count).
+  { apply specA_of. unfold lv_upd. destruct L as [HL [HF HA]].
+    destruct (upd_nth_some lv (set_arity (Some 0)) (N.to_nat (count - 1))) as [l' [E Ln]]; [unfold lenl in HL; lia|].
+    rewrite E. unfold spec0, Inv3. split; [split; [|split]|].
+    - unfold lenl in *. lia.
+    - eapply upd_nth_Forall; eauto.
+    - intros i Hi. destruct (HA i Hi) as [l [Hl Al]]. rewrite (upd_nth_nth _ lv _ l' E).
+      destruct (Nat.eqb _ _); rewrite Hl; simpl; eauto. eexists. split; [reflexivity|]. cbn. discriminate.
+    - split; [exact H1|]. split; [exact HM|]. rewrite (upd_nth_nth _ lv _ l' E). rewrite Nat.eqb_refl.
+      destruct (nth_error lv (N.to_nat (count - 1))) as [x|] eqn:Ex; [|apply nth_error_None in Ex; unfold lenl in HL; lia].
+      simpl. eexists. split; reflexivity. }
+  intros lv1 HI.
+  eapply specA_bind; [apply final_loop_spec; [exact HI|lia]|]. intros lv2 HI2. cbv beta in HI2.
+  eapply specA_bind; [apply (process_indexes_spec lv2 count); [exact HI2|exact Hni]|]. intros nia _.
+  eapply specA_bind; [apply specA_of, lv_upd_spec; destruct HI2 as [[HL _] _]; lia|]. intros; exact I.
+Qed.
+End Indexes.
+
+(* ================================================================== *)
+(* The whole of hwloc_backend_synthetic_init                            *)
+(* ================================================================== *)
+Theorem parse_safe_full v s : fix_memmove v = true -> fix_loops v = true -> fix_arity v = true ->
+  nul_terminated s ->
+  match parse v s with
+  | Ret _ | Rej => True
+  | Fault f => (f = FLit /\ tm_ok v s = false) \/ f = FDiv \/ f = FAssert \/ f = FHang
+  end.
+Proof.
+  intros Hm Hl Ha [n Hs]. change (specA (tm_ok v s) (fun _ : synth => True) (parse v s)). rewrite parse_decomp.
+  eapply specA_bind; [apply specA_of, (front_spec2 v s n Hs)|]. intros [st d0] [[HL [H1 [H2 Hni]]] Hd]. cbn [fst snd] in *.
+  eapply specA_bind; [apply specA_of, (middle_spec2 v s n st); exact (conj HL (conj H1 (conj H2 Hni)))|].
+  intros [[[lv c] tn] tg] [L [-> Hc2]].
+  eapply specA_bind with (Q := fun r : list level * N => LvInv s n (fst r) (snd r) /\ 1 <= snd r /\ snd r <= MAXD).
+  { destruct (needs_numa tn (st_nnr st)).
+    - eapply specA_weaken; [apply specA_of, (numa_insert_spec2 v s n lv (st_count st) Hm L Hc2 H2)|].
+      intros r [Hr1 Hr2]. rewrite Hr2. split; [exact Hr1|lia].
+    - unfold specA. cbn [fst snd]. split; [exact L|lia]. }
+  intros r [Hr [Hr1 Hr2]]. eapply specA_weaken; [apply (back_spec v s n Hs Hl); assumption|]. auto.
+Qed.
